@@ -24,7 +24,9 @@ import Nstd.Rc.Model
                              (threads that are not finished when the schedule ends are run to
                              completion in thread order)
   Output of `run`: `<trace> # <observation>` with one trace token per executed scheduling-point
-  step: `<tid>.inc.<new ref>`, `<tid>.dec.<new ref>`, `<tid>.ref.<value read>`, `<tid>.wr`.
+  step: `<tid>.inc.<new ref>`, `<tid>.dec.<new ref>`, `<tid>.ref.<value read>`, `<tid>.wr`, and
+  `<tid>.go` for the entry that lets a thread run on after an atomic operation (a thread is
+  descheduled before AND after every atomic operation on a payload counter).
 -/
 open Nstd.Common
 namespace Nstd.Rc
@@ -34,6 +36,7 @@ structure Thr where
   acts : List Act := []         -- remaining steps of the current phase
   inPre : Option ApiOp := none  -- call whose `pre` phase is running (its `post` is still to be computed)
   started : Bool := false
+  resume : Bool := false        -- it performed an atomic operation and waits to be scheduled again to run on
 
 structure DSt where
   st : St
@@ -168,7 +171,15 @@ partial def refill (d : DSt) (tid : Nat) : DSt :=
 
 def finished (d : DSt) (tid : Nat) : Bool :=
   let d' := refill d tid
-  ((d'.thr.getD tid {}).acts).isEmpty
+  ((d'.thr.getD tid {}).acts).isEmpty && !(d'.thr.getD tid {}).resume
+
+/-- atomic read-modify-write operations: the thread is descheduled again right after them, so that
+    the plain code that follows (`delete`, the stores of the new block, …) is a step of its own -/
+def isAtomic : Act → Bool
+  | .inc .. => true
+  | .dec .. => true
+  | .alloc .. => true
+  | _ => false
 
 /-- run the non-scheduling-point steps of thread tid until it reaches a scheduling point or ends -/
 partial def runLocal (d : DSt) (tid : Nat) : DSt :=
@@ -187,6 +198,8 @@ partial def grant (d : DSt) (tid : Nat) : DSt × String :=
   let t := d.thr.getD tid {}
   if !t.started then
     (runLocal { d with thr := d.thr.set tid { t with started := true } } tid, s!"{tid}.start")
+  else if t.resume then
+    (runLocal { d with thr := d.thr.set tid { t with resume := false } } tid, s!"{tid}.go")
   else
     let d := refill d tid
     let t := d.thr.getD tid {}
@@ -196,7 +209,10 @@ partial def grant (d : DSt) (tid : Nat) : DSt × String :=
       match astep d.st tid a with
       | some s' =>
         let tok := traceTok d.st s' tid a
-        (runLocal { d with st := s', thr := d.thr.set tid { t with acts := r } } tid, tok)
+        if isAtomic a then
+          ({ d with st := s', thr := d.thr.set tid { t with acts := r, resume := true } }, tok)
+        else
+          (runLocal { d with st := s', thr := d.thr.set tid { t with acts := r } } tid, tok)
       | none => ({ d with bad := true }, s!"{tid}.bad")
 
 def runSchedule (d : DSt) (sched : List Nat) : DSt × List String :=
@@ -209,7 +225,8 @@ def runSchedule (d : DSt) (sched : List Nat) : DSt × List String :=
 partial def drain (d : DSt) (tid : Nat) (toks : List String) : DSt × List String :=
   if tid ≥ nThreads then (d, toks)
   else if finished d tid && (d.thr.getD tid {}).started then drain d (tid + 1) toks
-  else if (d.thr.getD tid {}).prog.isEmpty && (d.thr.getD tid {}).acts.isEmpty && (d.thr.getD tid {}).inPre.isNone then
+  else if (d.thr.getD tid {}).prog.isEmpty && (d.thr.getD tid {}).acts.isEmpty && (d.thr.getD tid {}).inPre.isNone
+      && !(d.thr.getD tid {}).resume then
     drain d (tid + 1) toks
   else
     let (d', tok) := grant d tid
